@@ -14,8 +14,17 @@ const verifMarkerAlphabet = "~`"
 
 var verifMarkers []string
 
+// verifMarkerExtra: how many more bytes a marker may have (set by the thorough-tier wrappers)
+var verifMarkerExtra int
+
+func verifLongMarkers(harness func()) {
+	verifMarkerExtra = 2
+	defer func() { verifMarkerExtra = 0 }()
+	harness()
+}
+
 func verifMarker(name string) string {
-	n := 2 + verifChoose(name+".mlen", 2) // 2..3 bytes
+	n := 2 + verifChoose(name+".mlen", 2+verifMarkerExtra) // 2..3 bytes (2..5 in the thorough-tier variants)
 	bs := make([]byte, n)
 	for i := range bs {
 		bs[i] = verifNondetByteIn(name+".m", verifMarkerAlphabet)
@@ -279,3 +288,15 @@ func verifH_C19_foreign_go_values() {
 	verifCheckLeaks(s, v, "foreign Go value")
 	verifReach("end")
 }
+
+//verif:harness id=C19 tier=thorough witness=end,rejected bounds="as string with markers of 2-5 bytes"
+func verifH_C19_string_long() { verifLongMarkers(verifH_C19_string) }
+
+//verif:harness id=C19 tier=thorough witness=end,rejected bounds="as nested with markers of 2-5 bytes"
+func verifH_C19_nested_long() { verifLongMarkers(verifH_C19_nested) }
+
+//verif:harness id=C19 tier=thorough witness=end,rejected bounds="as discriminator with markers of 2-5 bytes"
+func verifH_C19_discriminator_long() { verifLongMarkers(verifH_C19_discriminator) }
+
+//verif:harness id=C19 tier=thorough witness=end,rejected bounds="as foreign_go_values with markers of 2-5 bytes"
+func verifH_C19_foreign_go_values_long() { verifLongMarkers(verifH_C19_foreign_go_values) }
